@@ -294,6 +294,33 @@ def layer_decl(node):
     return LAYERS[node["lyr"]]
 
 
+INNER_SRC = """import sys, unittest
+class Inner(unittest.TestCase):
+    def test_ok(self):
+        print("inner run: output of a passing test")
+    def test_bad(self):
+        print("inner run: output of a failing test")
+        sys.stderr.write("inner run: stderr of a failing test\\n")
+        self.fail("inner failure")
+"""
+
+
+def nested_run():
+    """a test of code that embeds the runner: it runs the runner in-process (with --buffer) on a tree of its own"""
+    import shutil
+    import tempfile
+    from zope.testrunner import run_internal
+    d = tempfile.mkdtemp(prefix="ztr-inner-")
+    try:
+        with open(os.path.join(d, "innerztr.py"), "w") as f:
+            f.write(INNER_SRC)
+        run_internal(["--path", d, "--tests-pattern", "^innerztr$"], ["inner", "--buffer"])
+    finally:
+        shutil.rmtree(d, ignore_errors=True)
+        sys.modules.pop("innerztr", None)
+        sys.path[:] = [p_ for p_ in sys.path if p_ != d]
+
+
 def do_part(test, ph, part):
     trace({"ev": "ph", "t": test.spec["id"], "ph": ph})
     for to_err, tok in part["writes"]:
@@ -320,6 +347,8 @@ def do_part(test, ph, part):
                 buf.flush()
             else:
                 stream.write("TOK%dK\n" % tok)
+    if part.get("nested"):
+        nested_run()
     if part.get("slow"):
         clock_jump(part["slow"])
     if part.get("sleep"):
